@@ -226,3 +226,48 @@ func TestHang(t *testing.T) {
 		t.Fatal(r.Outcome)
 	}
 }
+
+// TestCond: Signal wakes exactly one waiter, Broadcast all of them (sampled over schedules; the
+// exhaustive litmus explorer does not terminate in reasonable time on these programs).
+func TestCond(t *testing.T) {
+	for seed := uint64(1); seed <= 3000; seed++ {
+		st := []string{"random", "rtb", "pct", "starve"}[seed%4]
+		out := ""
+		r := run(seed, st, func() {
+			var mu ssync.Mutex
+			c := ssync.NewCond(&mu)
+			ready := make(chan int, 2)
+			done := make(chan int, 2)
+			for i := 0; i < 2; i++ {
+				simrt.Go("waiter", func() {
+					mu.Lock()
+					simrt.SendOp("ready", ready)(1)
+					c.Wait()
+					mu.Unlock()
+					simrt.SendOp("done", done)(1)
+				})
+			}
+			simrt.Recv("r1", ready)
+			simrt.Recv("r2", ready)
+			mu.Lock() // both waiters have released the lock inside Wait
+			c.Signal()
+			mu.Unlock()
+			simrt.Recv("d1", done)
+			mu.Lock()
+			mu.Unlock()
+			for i := 0; i < 3; i++ {
+				simrt.Yield("y")
+			}
+			if simrt.Len(done) > 0 {
+				out = "two woke"
+				return
+			}
+			c.Broadcast()
+			simrt.Recv("d2", done)
+			out = "ok"
+		})
+		if r.Outcome != simrt.OK || out != "ok" {
+			t.Fatalf("seed %d (%s): outcome %v, %q", seed, st, r.Outcome, out)
+		}
+	}
+}
